@@ -14,5 +14,6 @@ pub mod icc;
 pub mod jpeg;
 pub mod models;
 pub mod modular;
+pub mod hostile;
 pub mod src;
 pub mod vardct;
